@@ -220,6 +220,10 @@ func checkC10(sc *Scenario) *CheckOut {
 	if res.W.regPanic != "" {
 		return out
 	}
+	if res.Abandoned {
+		out.Faults = map[string]int64{"pre-run-abandoned": 1}
+		return out
+	}
 	if res.Overrun {
 		out.Viol = append(out.Viol, Violation{"C10", "no-progress", "run exceeded its step bound", ""})
 		return out
